@@ -1,5 +1,5 @@
 """Module to handle the functionality of conditional effects."""
-from typing import Union, Set
+from typing import Dict, Union, Set
 
 from .pddl_precondition import CompoundPrecondition
 from .pddl_type import PDDLType
@@ -33,6 +33,23 @@ class ConditionalEffect:
         )
 
 
+    def change_signature(self, old_to_new_parameter_names: Dict[str, str]) -> None:
+        """Changes the names of the action parameters that the conditional effect mentions.
+
+        :param old_to_new_parameter_names: the mapping between the old and new parameter names.
+        """
+        self.antecedents.change_signature(old_to_new_parameter_names)
+        for effect in self.discrete_effects:
+            effect.change_signature(old_to_new_parameter_names)
+
+        for effect in self.numeric_effects:
+            effect.change_signature(old_to_new_parameter_names)
+
+        # the effects are hashed by their text, which has just changed.
+        self.discrete_effects = set(self.discrete_effects)
+        self.numeric_effects = set(self.numeric_effects)
+
+
 class UniversalEffect:
     """Class representing a universal quantifier in a PDDL+ action."""
 
@@ -56,3 +73,17 @@ class UniversalEffect:
                 f"\n\t\t{str(conditional_effect)})\n\t"
             )
         return combined_universal_effect
+
+    def change_signature(self, old_to_new_parameter_names: Dict[str, str]) -> None:
+        """Changes the names of the action parameters that the quantified effects mention.
+
+        :param old_to_new_parameter_names: the mapping between the old and new parameter names.
+        """
+        # the quantified parameter is bound by the quantifier and keeps its name.
+        parameter_names = {
+            old_name: new_name
+            for old_name, new_name in old_to_new_parameter_names.items()
+            if old_name != self.quantified_parameter
+        }
+        for conditional_effect in self.conditional_effects:
+            conditional_effect.change_signature(parameter_names)
